@@ -172,8 +172,11 @@ impl Prop for C09 {
         let (req, req_head_len, resp, resp_head_len) = if h2 {
             let self_ref = r.chance(1, 3);
             let cont = r.chance(1, 6);
-            let (rq, st) = http2::connection_start(r, &http2::Opts { request: true, hostile: http2::Hostile::None, fancy_headers: false, odd_order: false, self_ref, continuation: cont, big_frame: None, announce_max_frame: false, huge_block: 0 });
-            let (rs, st2) = http2::connection_start(r, &http2::Opts { request: false, hostile: http2::Hostile::None, fancy_headers: false, odd_order: false, self_ref: false, continuation: false, big_frame: None, announce_max_frame: false, huge_block: 0 });
+            // one HTTP/2 exchange in eight is busy: 90..300 further streams opened behind the first message
+            let busy = if r.chance(1, 8) { r.urange(90, 300) } else { 0 };
+            let (rq, st) = http2::connection_start(r, &http2::Opts { request: true, hostile: http2::Hostile::None, fancy_headers: false, odd_order: false, self_ref, continuation: cont, big_frame: None, announce_max_frame: false, huge_block: 0, extra_streams: busy });
+            let busy_s = if r.chance(1, 2) { busy } else { 0 };
+            let (rs, st2) = http2::connection_start(r, &http2::Opts { request: false, hostile: http2::Hostile::None, fancy_headers: false, odd_order: false, self_ref: false, continuation: false, big_frame: None, announce_max_frame: false, huge_block: 0, extra_streams: busy_s });
             (rq, st.head_end, rs, st2.head_end)
         } else {
             let (rq, rs) = if r.chance(1, 10) { (http1::exotic_request(r), http1::exotic_response(r)) } else { (http1::request(r, 300), http1::response(r, 400)) };
